@@ -4,7 +4,7 @@
 # against each mutants/benign_*.patch in a scratch worktree; prints anything that is not "OK".
 cd "$(dirname "$0")/.." || exit 2
 RC=0
-for P in mutants/benign_*.patch; do
+for P in ${@:-mutants/benign_*.patch}; do
   N=$(basename "$P" .patch)
   WT=$(mktemp -d /tmp/benign_XXXXXX); rmdir "$WT"
   git -C /repo worktree add --detach "$WT" HEAD -q || exit 2
